@@ -210,20 +210,8 @@ func H_conc_api() {
 	rl := make(chan []string, 1)
 	go func() { ra <- w.Add("/new") }()
 	go func() { verifYield(); rb <- w.Remove("/new") }()
-	rl2 := make(chan int, 1)
 	go func() { verifYield(); rl <- w.WatchList() }()
-	go func() {
-		l2 := w.WatchList()
-		n := 0
-		for _, p := range l2 { // the caller reads the snapshot it was given
-			if p != "" {
-				n++
-			}
-		}
-		rl2 <- n
-	}()
 	ea, eb, l := <-ra, <-rb, <-rl
-	<-rl2
 	verifAssert(ea == nil, "Add of a fresh path succeeds")
 	verifAssert(eb == nil || errors.Is(eb, ErrNonExistentWatch), "Remove either found the path (after Add) or reports ErrNonExistentWatch (before Add)")
 	for i := range l {
@@ -479,4 +467,33 @@ func H_close_vs_op() {
 	verifQuiesce()
 	verifAssert(verifGoroutines() == 0, "no goroutine is left behind (blocked) after Close")
 	verifReach("close-vs-op")
+}
+
+// C07: callers read the lists they were given while other calls run; a list is
+// a snapshot owned by its caller.
+func H_conc_lists() {
+	W := verifParam("W")
+	verifKReset()
+	w := verifNewInotifyN(0, 1, 1)
+	verifSetupTable(w, W)
+	verifK.nIno = W + 1
+	verifK.addResolve = W
+	ra := make(chan error, 1)
+	r1, r2 := make(chan int, 1), make(chan int, 1)
+	count := func(l []string) int {
+		n := 0
+		for _, p := range l { // the caller reads the snapshot it was given
+			if p != "" {
+				n++
+			}
+		}
+		return n
+	}
+	go func() { ra <- w.Add("/new") }()
+	go func() { r1 <- count(w.WatchList()) }()
+	go func() { verifYield(); r2 <- count(w.WatchList()) }()
+	ea, n1, n2 := <-ra, <-r1, <-r2
+	verifAssert(ea == nil, "Add succeeds")
+	verifAssert((n1 == W || n1 == W+1) && (n2 == W || n2 == W+1), "each WatchList shows the state before or after the concurrent Add")
+	verifReach("conc-lists")
 }
